@@ -261,6 +261,20 @@ Definition kstep (P : kparams) (fc : fconf) (k : kstate) (inp : bytes) (ocap : N
              ko_err := None |}
       end.
 
+(* ---------- a whole history over the input stream [X]: every call offers the next [kc_n] bytes ---------- *)
+Record kcall := { kc_n : N; kc_cap : N; kc_dir : directive; kc_fc : fconf }.
+Fixpoint krun (P : kparams) (k : kstate) (X : bytes) (pos : N) (calls : list kcall) (emitted : bytes)
+  : option (kstate * N * bytes) :=
+  match calls with
+  | [] => Some (k, pos, emitted)
+  | c :: t =>
+      let o := kstep P (kc_fc c) k (tk (kc_n c) (dr pos X)) (kc_cap c) (kc_dir c) in
+      match ko_ret o with
+      | None => None
+      | Some _ => krun P (ko_k o) X (Z.to_N (Z.of_N pos + ko_consumed o)) t (emitted ++ ko_out o)
+      end
+  end.
+
 End Compressor.
 
 Arguments k_stage {CS} k. Arguments k_blockSize {CS} k. Arguments k_inBuffSize {CS} k. Arguments k_outBuffSize {CS} k.
